@@ -31,13 +31,14 @@ const (
 	k8HiCoord
 	k8LoCoord
 	k8LoLine
+	k8LoRadius
 	k8NReg
 	k8Angle
 	k8ViewBox
 	nk8
 )
 
-var c08KindNames = [...]string{"real(SetLOD)", "coordinate-highres(StartPath)", "coordinate-lowres(StartPath)", "coordinate-lowres(AbsLineTo run)", "nreg(SetNReg)", "angle(AbsArcTo)", "viewBox(Reset)"}
+var c08KindNames = [...]string{"real(SetLOD)", "coordinate-highres(StartPath)", "coordinate-lowres(StartPath)", "coordinate-lowres(AbsLineTo run)", "coordinate-lowres(AbsArcTo radii)", "nreg(SetNReg)", "angle(AbsArcTo)", "viewBox(Reset)"}
 
 func init() {
 	subs := []*run.Sub{}
@@ -205,6 +206,15 @@ func (s *numSink) SetNReg(adj uint8, incr bool, f float32) {
 	}
 }
 func (s *numSink) AbsArcTo(rx, ry, rot float32, la, sw bool, x, y float32) {
+	if s.kind == k8LoRadius {
+		if !rec.SameBits(rx, ry) {
+			s.bad = "rx and ry differ"
+		}
+		if rot != 0 || x != 1 || y != 1 || la || sw {
+			s.bad = "arc operands other than the radii changed"
+		}
+		s.outs = append(s.outs, rx)
+	}
 	if s.kind == k8Angle {
 		if rx != 1 || ry != 1 || x != 1 || y != 1 || la || sw {
 			s.bad = "arc operands other than the angle changed"
@@ -216,18 +226,30 @@ func (s *numSink) AbsArcTo(rx, ry, rot float32, la, sw bool, x, y float32) {
 // c08Encode encodes vals through the public API for the kind.
 func c08Encode(kind c08Kind, vals []float32) ([]byte, error) {
 	var e encode.Encoder
-	e.Reset(ivg.DefaultViewBox, ivg.DefaultPalette)
+	// Half of the high-resolution blocks use a zero-value Encoder that is never
+	// Reset (default metadata implied) with the public flag set before the first
+	// call; the bytes are the same as after Reset with the defaults.
+	if !(kind == k8HiCoord && len(vals) > 0 && math.Float32bits(vals[0])>>11&1 == 1) {
+		e.Reset(ivg.DefaultViewBox, ivg.DefaultPalette)
+	}
 	switch kind {
 	case k8Real:
 		for _, f := range vals {
 			e.SetLOD(f, f)
 		}
 	case k8HiCoord, k8LoCoord:
+		e.HighResolutionCoordinates = kind == k8HiCoord
 		for _, f := range vals {
 			e.HighResolutionCoordinates = kind == k8HiCoord
 			e.StartPath(0, f, f)
 			e.ClosePathEndPath()
 		}
+	case k8LoRadius:
+		e.StartPath(0, 0, 0)
+		for _, f := range vals {
+			e.AbsArcTo(f, f, 0, false, false, 1, 1)
+		}
+		e.ClosePathEndPath()
 	case k8LoLine:
 		e.StartPath(0, 0, 0)
 		for _, f := range vals {
@@ -316,7 +338,7 @@ func c08Walk(kind c08Kind, b []byte, n int) (widths []uint8, forms []uint8, raw 
 			widths, raw = append(widths, uint8(w)), append(raw, v)
 			forms = append(forms, (op-0xa8)>>3)
 		}
-	case k8LoLine, k8Angle:
+	case k8LoLine, k8Angle, k8LoRadius:
 		if p+3 > len(b) || b[p] != 0xc0 || b[p+1] != 0x80 || b[p+2] != 0x80 {
 			return fail("unexpected path start")
 		}
@@ -346,6 +368,17 @@ func c08Walk(kind c08Kind, b []byte, n int) (widths []uint8, forms []uint8, raw 
 					if !ok1 || !ok2 || w1 != w2 || v1 != v2 {
 						return fail("two encodings of the same value differ")
 					}
+					widths, raw, forms = append(widths, uint8(w1)), append(raw, v1), append(forms, 1)
+				} else if kind == k8LoRadius {
+					w1, v1, ok1 := nat()
+					w2, v2, ok2 := nat()
+					if !ok1 || !ok2 || w1 != w2 || v1 != v2 {
+						return fail("two encodings of the same radius differ")
+					}
+					if p+4 > len(b) || b[p] != 0x00 || b[p+1] != 0x00 || b[p+2] != 0x82 || b[p+3] != 0x82 {
+						return fail("arc angle/flags/endpoint")
+					}
+					p += 4
 					widths, raw, forms = append(widths, uint8(w1)), append(raw, v1), append(forms, 1)
 				} else {
 					if p+2 > len(b) || b[p] != 0x82 || b[p+1] != 0x82 {
@@ -458,7 +491,7 @@ func c08Batch(c *run.Ctx, kind c08Kind, vals []float32, reencode bool) []float32
 			} else if !f30(c, in, out) {
 				c.Violate("coordinate-30bit-rule", detail(i, in, out, w, ""))
 			}
-		case k8LoCoord, k8LoLine:
+		case k8LoCoord, k8LoLine, k8LoRadius:
 			if in >= -128 && in < 128 {
 				m := float64(out) * 64
 				d := math.Abs(float64(out) - float64(in))
